@@ -477,6 +477,42 @@ func (m *engineImpl) Do(line string) string {
 		tctx, cancel := context.WithTimeout(ctx, 150*time.Millisecond)
 		defer cancel()
 		return m.withExit(errStr(m.db.Import(tctx, bytes.NewReader(data))))
+	case "stray": // stray <n>: leave n temporary files next to the newest transaction file (a crashed writer)
+		if len(f) != 2 || !m.need() {
+			return "bad-op"
+		}
+		n, ok := atoi(f[1])
+		if !ok {
+			return "bad-op"
+		}
+		pos := m.db.Pos()
+		base := m.db.LTXPath(pos.TXID, pos.TXID)
+		next := m.db.LTXPath(pos.TXID+1, pos.TXID+1)
+		names := []string{base + ".tmp", base + ".12345.tmp", next + ".tmp", next + ".777.tmp", filepath.Join(m.db.LTXDir(), "zzz.tmp")}
+		for i := 0; i < int(n) && i < len(names); i++ {
+			_ = os.MkdirAll(m.db.LTXDir(), 0o777)
+			if err := os.WriteFile(names[i], []byte("partial"), 0o666); err != nil {
+				return "err"
+			}
+			old := time.Now().Add(-2 * time.Hour)
+			_ = os.Chtimes(names[i], old, old)
+		}
+		return "ok"
+	case "age": // every transaction file on disk becomes two hours old
+		if !m.need() {
+			return "bad-op"
+		}
+		ents, _ := os.ReadDir(m.db.LTXDir())
+		old := time.Now().Add(-2 * time.Hour)
+		for _, e := range ents {
+			_ = os.Chtimes(filepath.Join(m.db.LTXDir(), e.Name()), old, old)
+		}
+		return "ok"
+	case "retain": // retention sweep with a one-hour retention period
+		if !m.need() {
+			return "bad-op"
+		}
+		return errStr(m.db.EnforceRetention(ctx, time.Now().Add(-time.Hour)))
 	case "reopen": // restart on the same data directory
 		if m.store == nil {
 			return "bad-op"
